@@ -272,9 +272,14 @@ def objects(family, seed=0):
 
 def spec_children(spec):
     if spec["kind"] == "query":
-        if spec["ast"][0] == "orscale":
-            return [Q(c) for c in spec["ast"][1]]
-        return [Q(c) for c in children(spec["ast"])]
+        a = spec["ast"]
+        if a[0] == "orscale":
+            return [Q(c) for c in a[1]]
+        out = [Q(c) for c in children(a)]
+        if a[0] == "boost":
+            # binary queries hand their boost down to their operands
+            out.extend(Q(["boost", c, a[2]]) for c in children(a[1]))
+        return out
     return [Q(a) for a in spec.get("asts", [])]
 
 
@@ -777,13 +782,38 @@ def explore_spec(spec, s, depth, cnt=None, cache=None):
     return r
 
 
+def same_cause(vk, violations):
+    """The failed demand of a sub-object that explains the failed demand vk
+    of the enclosing object: the same one; else the same exception raised at
+    the same place (one broken method is reached through several calls); else
+    another failure of the same call (a sub-matcher that loses a posting makes
+    the parent report a lower score)."""
+    if vk in violations:
+        return vk
+    bound, kind = vk
+    for k in sorted(violations):
+        if kind.startswith("exc:") and k[1] == kind:
+            return k
+    for k in sorted(violations):
+        if not kind.startswith("exc:") and k[0] == bound:
+            return k
+    if bound == "replace+skip_to_quality":
+        for b in ("skip_to_quality", "replace"):
+            for k in sorted(violations):
+                if k[0] == b:
+                    return k
+    return None
+
+
 def culprit_spec(spec, r, s, depth, vk, cache):
-    """Smallest sub-object that still fails the same demand (bound, kind)."""
+    """Smallest sub-object that still fails for the same cause; returns
+    (spec, exploration result, its failed demand)."""
     for c in spec_children(spec):
         rc = explore_spec(c, s, depth, None, cache)
-        if vk in rc["violations"]:
-            return culprit_spec(c, rc, s, depth, vk, cache)
-    return spec, r
+        k = same_cause(vk, rc["violations"])
+        if k is not None:
+            return culprit_spec(c, rc, s, depth, k, cache)
+    return spec, r, vk
 
 
 def searchers(ix, wname, mode):
@@ -837,7 +867,11 @@ def task(t):
                         acc.sample({"skipped": spec, "layout": layout, "weighting": wname,
                                     "protocol": list(r["protocol"][:2])})
                     for vk in sorted(r["violations"]):
-                        cu, rc = culprit_spec(spec, r, s, depth, vk, cache)
+                        if vk[0] == "replace+skip_to_quality" and any(
+                                k[0] in ("replace", "skip_to_quality") for k in r["violations"]):
+                            # the sequence fails because one of its steps does
+                            continue
+                        cu, rc, vk = culprit_spec(spec, r, s, depth, vk, cache)
                         bound, kind = vk
                         detail, prog, q = rc["violations"][vk]
                         acc.violation(sig_of(cu, rc, wname, bound, kind),
@@ -1092,18 +1126,20 @@ def plan(tier, seed):
         for lay in NA + [B]:
             add(lay, "bm25", "top", "two", 4, depth)
         add(A, "bm25", "top", "direct", 16, depth)
-        add(M3, "bm25", "top", "direct", 16, depth)
+        add(M3, "bm25", "top", "direct", 16, depth, only=[seed + 2 * i for i in range(8)])
         add(B, "bm25", "top", "direct", 8, depth, only=[seed, seed + 3, seed + 6])
         add(A2, "bm25", "top", "boost", 8, depth)
         add(C, "bm25", "top", "boost", 8, depth, only=[seed, seed + 4])
         add(A, "bm25", "top", "three", 8, depth)
-        add(A3, "bm25", "top", "three", 8, depth, only=[seed, seed + 2, seed + 4, seed + 6])
+        add(A3, "bm25", "top", "three", 8, depth, only=[seed, seed + 4])
         add(A2, "bm25", "top", "nested", 16, depth)
-        add(B, "bm25", "top", "nested", 16, depth, only=[seed, seed + 5, seed + 10, seed + 15])
+        add(B, "bm25", "top", "nested", 16, depth, only=[seed, seed + 8])
         add(M1, "bm25", "top", "two6", 4, depth)
         add(M2, "bm25", "top", "two6", 4, depth)
         add(M1, "bm25", "top", "three", 8, depth, only=[seed, seed + 3])
         add(M2, "bm25", "leaves", "two6", 4, depth, only=[seed, seed + 2])
+        # integer-like weights (TF_IDF) make block qualities tie
+        add(A2, "tfidf", "top", "three", 8, depth)
         for w in ("multi", "bm25_fieldb", "bm25"):
             add(A2, w, "top", "two_w", 4, depth)
         for w in W_NOCLAIM:
@@ -1115,19 +1151,19 @@ def plan(tier, seed):
             r = wi + seed
             for lay in NA + DL + MS:
                 add(lay, w, "top", "leaf", 1, depth)
-            for lay in NA:
-                add(lay, w, "top", "two", 8, depth)
+            add(NA[r % 3], w, "top", "two", 8, depth)
+            add(NA[(r + 1) % 3], w, "top", "two_all" if wi % 2 == 0 else "two", 16, depth)
             add(DL[r % 2], w, "top", "two6", 4, depth)
             add(NA[r % 3], w, "top", "direct", 16, depth)
-            add(NA[(r + 1) % 3], w, "top", "two_all", 16, depth)
-            for lay in MS:
-                add(lay, w, "top", "two6", 8, depth)
-            add(M2, w, "leaves", "two6", 8, depth)
+            add(MS[r % 3], w, "top", "two6", 8, depth)
+            add(MS[(r + 1) % 3], w, "top", "two6", 8, depth)
+            add(M2, w, "leaves", "two6", 8, depth, only=[0, 2, 4, 6] if wi else None)
             add(NA[(r + 2) % 3], w, "top", "boost", 16, depth)
             add(NA[(r + 1) % 3], w, "top", "three", 16, depth)
-            add(NA[r % 3], w, "top", "nested4" if wi % 2 == 0 else "nested", 48, depth)
+            add(NA[r % 3], w, "top", "nested4" if w in ("bm25", "tfidf") else "nested", 48, depth)
             add(A2, w, "top", "two_w", 8, depth)
-        for lay in (A3, B, M1):
+        add(A2, "tfidf", "top", "three", 16, depth)
+        for lay in (B, M1):
             add(lay, "bm25", "top", "nested", 32, depth)
             add(lay, "bm25", "top", "three", 16, depth)
             add(lay, "bm25", "top", "boost", 16, depth)
